@@ -475,8 +475,21 @@ func (g *histGen) genTx() *txSpec {
 	case "poor":
 		g.poorN++
 		poor := sim.KeyFor(fmt.Sprintf("poor-%d", g.poorN))
-		s.tx = w.BVM(poor, constant.StoreContractAddr, "Set", pb.String("p"), pb.String("q"))
 		s.victim = true
+		if rapid.Bool().Draw(t, "poorIBTP") {
+			// a request or receipt with the next index that the interchain contract accepts; the fee then cannot be paid
+			pi := rapid.IntRange(0, len(g.pairs)-1).Draw(t, "pair")
+			pr := g.pairs[pi]
+			proof := []byte("1")
+			ib := &pb.IBTP{From: pr.from, To: pr.to, Index: g.reqIdx[pi] + 1, TimeoutHeight: 3, Proof: sim.ProofHash(proof), Type: pb.IBTP_INTERCHAIN}
+			if rapid.Bool().Draw(t, "poorRcpt") {
+				ib.Index, ib.TimeoutHeight, ib.Type = g.rcpIdx[pi]+1, 0, pb.IBTP_RECEIPT_SUCCESS
+			}
+			s.tx = w.IBTP(poor, ib, proof)
+			s.desc = fmt.Sprintf("IBTP %s pair%d idx=%d by an account that cannot pay the fee", ib.Type, pi, ib.Index)
+			break
+		}
+		s.tx = w.BVM(poor, constant.StoreContractAddr, "Set", pb.String("p"), pb.String("q"))
 		s.desc = "BVM call by an account that cannot pay the fee"
 	case "eth":
 		// Ethereum-format (legacy, signed) transactions: value transfers, creations and calls by funded and unfunded
